@@ -243,6 +243,18 @@ def repeated_calls_oracle(R, base, ncalls):
                         if arrs[i].shape == arrs[j].shape and np.array_equal(arrs[i], arrs[j]) and bad is None:
                             bad = {'check': 'events-independent', 'dc': dc, 'number_events': ne, 'events': [i, j], 'samples': arrs[i].tolist(),
                                    'note': 'two events of one joint draw received bit-identical samples'}
+                        # no sample of one event may reappear, at any position, among those of another (probability zero for independent draws)
+                        cols_i = {arrs[i][:, a].tobytes(): a for a in range(arrs[i].shape[1])}
+                        for b in range(arrs[j].shape[1]):
+                            a = cols_i.get(arrs[j][:, b].tobytes())
+                            if a is not None and bad is None:
+                                bad = {'check': 'events-independent', 'dc': dc, 'number_events': ne, 'number_samples': 4, 'events': [i, j], 'columns': [a, b],
+                                       'samples_of_the_two_events': [arrs[i].tolist(), arrs[j].tolist()],
+                                       'note': 'sample %d of event %d is bit-identical to sample %d of event %d within one joint draw' % (a, i, b, j)}
+                for i in range(ne):
+                    if arrs[i].shape != (6, 4) and bad is None:
+                        bad = {'check': 'events-independent', 'dc': dc, 'number_events': ne, 'event': i, 'shape': list(arrs[i].shape),
+                               'note': 'an event of a joint draw did not receive the requested number of samples (4)'}
             elif bad is None:
                 bad = {'check': 'events-independent', 'dc': dc, 'number_events': ne, 'note': 'a joint draw did not return one sample set per event: %r' % type(out)}
     return bad
@@ -333,7 +345,7 @@ def run(R):
                         dict(rec, check='sample-vs-own-draws'))
     R.cov['rule'] = ('recorded draws: 1-20 samples per call for random_mt / random_dc / random_clvd / random_sample, every column compared bit '
                      'for bit with the model on its own draws; pattern: unit norm and eigenvalues of every sample; statistics: first and second '
-                     'moments of the six-vector components, lag-one independence, second moments of the T, N and P axes within one call; 300 consecutive small calls per generator must not repeat a sample; results held across later calls must not change; events of a joint draw must differ; rotation: turning both vector draws of every sample by a random rotation must turn the returned tensor with it (C08_triad_rotation_equivariant on the real generators)')
+                     'moments of the six-vector components, lag-one independence, second moments of the T, N and P axes within one call; 300 consecutive small calls per generator must not repeat a sample; results held across later calls must not change; events of a joint draw must differ and share no sample at any position; rotation: turning both vector draws of every sample by a random rotation must turn the returned tensor with it (C08_triad_rotation_equivariant on the real generators)')
     return proved
 
 
